@@ -1,12 +1,12 @@
 """E5 — guard extraction and acceptance intervals (three-valued evaluation of one-variable
 comparisons at boundary points; constant folding, not path solving)."""
-from .db import (walk, peel, peel_casts, render, diverges, exit_kind, callee, path_ends, lit_int,
+from .db import (walk, walk_x, deref_let, peel, peel_casts, render, diverges, exit_kind, callee, path_ends, lit_int,
                  CMP_OPS, NEG, SWAP, children)
 
 
 def cmp_atom(n):
     """n is a Binary comparison -> (op, lhs, rhs) else None"""
-    n = peel(n)
+    n = deref_let(n) if isinstance(n, dict) and n.get("ty") == "bool" else peel(n)
     if isinstance(n, dict) and n.get("k") == "Binary" and n.get("op") in CMP_OPS:
         return n["op"], n["l"], n["r"]
     return None
@@ -22,6 +22,8 @@ def eval3(cond, atom_val):
     if not isinstance(cond, dict):
         return None
     k = cond.get("k")
+    if k == "Path" and cond.get("res") == "local" and "let_init" in cond and cond.get("ty") == "bool":
+        return eval3(cond["let_init"], atom_val)
     if k == "Unary" and cond.get("op") == "Not":
         v = eval3(cond["e"], atom_val)
         return None if v is None else (not v)
@@ -52,9 +54,9 @@ def bound_cmp_evaluator(is_bound, point, var_pred=None):
         c = cmp_atom(atom)
         if c:
             op, l, r = c
-            if is_bound(peel_casts(r)) and (var_pred is None or var_pred(l)):
+            if (is_bound(peel_casts(r)) or is_bound(peel_casts(deref_let(peel_casts(r))))) and (var_pred is None or var_pred(l)):
                 return holds(op, point, 0)
-            if is_bound(peel_casts(l)) and (var_pred is None or var_pred(r)):
+            if (is_bound(peel_casts(l)) or is_bound(peel_casts(deref_let(peel_casts(l))))) and (var_pred is None or var_pred(r)):
                 return holds(SWAP[op], point, 0)
             return None
         a = peel(atom)
@@ -84,7 +86,7 @@ def guarded_exits(root):
 
 
 def mentions(node, pred):
-    for x, _ in walk(node):
+    for x, _ in walk_x(node):
         if pred(x):
             return True
     return False
